@@ -165,3 +165,75 @@ R.contract(
     replayable=False,
 )
 
+
+# ------------------------------------------------------------------------------------------------- unit validate_response: every failure the checks found is recorded, and ends the test case
+UEX_ = "schemathesis.engine.phases.unit._executor:"
+
+
+def _run_checks_stub(it, env):
+    """run_checks (verified in C04): calls on_failure / on_success once per check and returns the set of failures - here: up to 3 checks, any pass / fail pattern."""
+    from pyvc.values import VObj
+
+    n = it.path.choose([(k, True) for k in (0, 1, 2, 3)], "n-checks")
+    it.path.bounded_inputs.add("up to 3 checks per response")
+    collected = set()
+    outcomes = []
+    for i in range(n):
+        failed = it.path.choose([(False, True), (True, True)], f"check{i}-fails")
+        if failed:
+            failure = VObj(it.resolve_class("spec:FailureObj"), {"check": f"check{i}"})  # (distinct failures: distinct objects)
+            outcomes.append((f"check{i}", failure))
+            it.call(env["on_failure"], [f"check{i}", collected, failure], {})
+        else:
+            outcomes.append((f"check{i}", None))
+            it.call(env["on_success"], [f"check{i}", env["case"]], {})
+    it.ghost["outcomes"] = outcomes
+    it.ghost["collected"] = collected
+    return collected
+
+
+R.contract("schemathesis.checks:run_checks", args={"case": Opq("Any"), "response": Opq("Any"), "ctx": Opq("Any"), "checks": Opq("Any"), "on_failure": Opq("Any"), "on_success": Opq("Any")},
+           returns=_run_checks_stub, trusted=True, note="C04 contract: every check is run; on_failure(name, collected, failure) for each failure, on_success(name, case) otherwise; returns the failures")
+
+
+def _recorder_methods():
+    from pyvc.values import VObj
+
+    def find_failure_data(it, obj, a, k):
+        case = VObj(it.resolve_class("spec:FailedCase"), {"id": Str.make(it, it.path.fresh("failed_case_id"))})
+        fd = VObj(it.resolve_class("spec:FailureData"), {"case": case, "headers": fresh_opaque(it, "SentHeaders"), "verify": True})
+        it.ghost["located"] = it.ghost["located"] + [(k["failure"], fd)]
+        return fd
+
+    def record_check_failure(it, obj, a, k):
+        it.ghost["recorded_failures"] = it.ghost["recorded_failures"] + [dict(k)]
+
+    def record_check_success(it, obj, a, k):
+        it.ghost["recorded_successes"] = it.ghost["recorded_successes"] + [dict(k)]
+
+    return {"find_failure_data": find_failure_data, "record_check_failure": record_check_failure, "record_check_success": record_check_success}
+
+
+R.nominal_methods["spec:CheckRecorder"] = _recorder_methods()
+R.nominal_methods["spec:FailedCase"] = {"as_curl_command": lambda it, obj, a, k: ("curl", obj, k.get("headers"), k.get("verify"))}
+FAILED = "[(n, f) for n, f in ghost('outcomes') if f is not None]"
+R.contract(
+    UEX_ + "validate_response",
+    prop="C05",
+    args={"case": Obj("spec:CheckedCase", id=Str), "ctx": Opq("CheckContext"), "checks": Opq("Checks"), "response": Opq("ResponseRef"), "continue_on_failure": Bool, "recorder": Obj("spec:CheckRecorder")},
+    ghost={"outcomes": [], "collected": None, "located": [], "recorded_failures": [], "recorded_successes": []},
+    raises=["FailureGroup"],
+    ensures={
+        # reaches the report: every failure found by a check is recorded on the scenario's recorder - under its check, against the request that produced it, with the code sample of THAT request
+        "every_failure_is_recorded_with_its_check_and_code_sample": "length(ghost('recorded_failures')) == length(" + FAILED + ") and all(any(r['name'] == n and r['failure'] is f and "
+            "any(lf is f and r['case_id'] == fd.case.id and r['code_sample'] == ('curl', fd.case, fd.headers, fd.verify) for lf, fd in ghost('located')) for r in ghost('recorded_failures')) for n, f in " + FAILED + ")",
+        "every_passed_check_is_recorded_as_passed": "length(ghost('recorded_successes')) == length(ghost('outcomes')) - length(" + FAILED + ")",
+        # a failing case may only return normally when the user asked to continue on failures
+        "returns_only_without_failures_or_when_continuing": "length(" + FAILED + ") == 0 or continue_on_failure",
+    },
+    raises_ensures={
+        "raised_only_for_real_failures_after_recording_them": "raised == 'FailureGroup' and length(" + FAILED + ") > 0 and not continue_on_failure and length(ghost('recorded_failures')) == length(" + FAILED + ")",
+    },
+    replayable=False,
+)
+
